@@ -3561,7 +3561,7 @@ func (s *Store) ServiceDump(ws memdb.WatchSet, kind structs.ServiceKind, useKind
 
 func serviceDumpAllTxn(tx ReadTxn, ws memdb.WatchSet, entMeta *acl.EnterpriseMeta, peerName string) (uint64, structs.CheckServiceNodes, error) {
 	// Get the table index
-	idx := catalogMaxIndexWatch(tx, ws, entMeta, "", true)
+	idx := catalogMaxIndexWatch(tx, ws, entMeta, peerName, true)
 
 	if entMeta == nil {
 		entMeta = structs.DefaultEnterpriseMetaInDefaultPartition()
